@@ -10,8 +10,8 @@ package main
 
 import (
 	"fmt"
-	"go/types"
 	"go/token"
+	"go/types"
 	"sort"
 	"strings"
 
@@ -164,7 +164,7 @@ func (e *e2) buildContainer() {
 				rep, msg := x.eval(st, call.Call.Args[1]), x.eval(st, call.Call.Args[2])
 				kind := e.replyKind(x, st, rep, msg)
 				return []xoutcome{{result: &absVal{k: avNil}, apply: func(s *xstate) {
-					nn := m.at("after !" + kind, x, s)
+					nn := m.at("after !"+kind, x, s)
 					m.edge(cur(s), cfsmTrans{kind: "!", msg: kind, to: nn, pos: pos})
 					s.user["node"] = nn
 				}}}, true
@@ -176,7 +176,7 @@ func (e *e2) buildContainer() {
 					outs = append(outs, xoutcome{
 						result: tupleOf(symStruct(recvCmd.Signature.Results().At(0).Type(), map[string]*absVal{"Cmd": avInt(kv2)}), avTag("msg"), &absVal{k: avNil}),
 						apply: func(s *xstate) {
-							nn := m.at("after ?" + k2, x, s)
+							nn := m.at("after ?"+k2, x, s)
 							m.edge(cur(s), cfsmTrans{kind: "?", msg: k2, to: nn, pos: pos})
 							s.user["node"] = nn
 						}})
@@ -216,7 +216,7 @@ func (e *e2) buildContainer() {
 					pos := p.Pos(sel.Pos())
 					lbl := shortChans([]string{ch})[0]
 					outs = append(outs, xoutcome{result: &absVal{k: avStruct, fields: fields}, apply: func(s *xstate) {
-						nn := m.at("after " + lbl, x, s)
+						nn := m.at("after "+lbl, x, s)
 						m.edge(cur(s), cfsmTrans{kind: "t", msg: lbl, to: nn, pos: pos})
 						s.user["node"] = nn
 					}})
@@ -374,7 +374,7 @@ func (e *e2) buildHost() {
 					}
 				}
 				return []xoutcome{{result: &absVal{k: avNil}, apply: func(s *xstate) {
-					nn := m.at("after !" + kind, x, s)
+					nn := m.at("after !"+kind, x, s)
 					m.edge(cur(s), cfsmTrans{kind: "!", msg: kind, to: nn, pos: pos})
 					s.user["node"] = nn
 				}}}, true
@@ -384,7 +384,7 @@ func (e *e2) buildHost() {
 					k := k
 					rep, msg := mkReply(k)
 					outs = append(outs, xoutcome{result: tupleOf(rep, msg, &absVal{k: avNil}), apply: func(s *xstate) {
-						nn := m.at("after ?" + k, x, s)
+						nn := m.at("after ?"+k, x, s)
 						m.edge(cur(s), cfsmTrans{kind: "?", msg: k, to: nn, pos: pos})
 						s.user["node"] = nn
 					}})
@@ -428,7 +428,7 @@ func (e *e2) buildHost() {
 						rep, msg := mkReply(rk)
 						val := &absVal{k: avStruct, fields: map[string]*absVal{"Reply": rep, "Msg": msg}}
 						outs = append(outs, xoutcome{result: mk(map[string]*absVal{slot: val}), apply: func(s *xstate) {
-							nn := m.at("after ?" + rk, x, s)
+							nn := m.at("after ?"+rk, x, s)
 							m.edge(cur(s), cfsmTrans{kind: "?", msg: rk, to: nn, pos: pos})
 							s.user["node"] = nn
 						}})
@@ -439,7 +439,7 @@ func (e *e2) buildHost() {
 						lbl = ch
 					}
 					outs = append(outs, xoutcome{result: mk(nil), apply: func(s *xstate) {
-						nn := m.at("after " + lbl, x, s)
+						nn := m.at("after "+lbl, x, s)
 						m.edge(cur(s), cfsmTrans{kind: "t", msg: lbl, to: nn, pos: pos})
 						s.user["node"] = nn
 					}})
@@ -513,9 +513,9 @@ func buildE2(p *Prog) *e2 {
 // ---------- product ----------
 
 type prodState struct {
-	h, c   int
-	qhc    string // "," separated kinds
-	qch    string
+	h, c int
+	qhc  string // "," separated kinds
+	qch  string
 }
 
 type prodViolation struct {
@@ -612,6 +612,16 @@ func (e *e2) explore(capacity int) prodResult {
 			}
 			continue // terminal
 		}
+		// a state in which the reply stream is already shifted is not expanded further (everything after it is a
+		// consequence; exploring it only multiplies the queue contents)
+		if s.h == e.host.idle && s.qch != "" {
+			report("orphan-reply(host is idle but a reply is still queued: it will be consumed by a later call)", s, "", "")
+			continue
+		}
+		if res.states > 3000000 {
+			report("state-space-limit(more than 3,000,000 product states)", s, "", "")
+			break
+		}
 		enabled := 0
 		hostBlockedRecv, contBlockedRecv := false, false
 		// host moves
@@ -674,9 +684,6 @@ func (e *e2) explore(capacity int) prodResult {
 		}
 		// host-side checks at idle
 		if s.h == e.host.idle {
-			if s.qch != "" {
-				report("orphan-reply(host is idle but a reply is still queued: it will be consumed by a later call)", s, "", "")
-			}
 			// container stable (no internal or send move), blocked in a receive that is not the idle one, nothing on the way
 			if s.c != e.cont.idle && s.qhc == "" && s.qch == "" {
 				stable := true
@@ -702,7 +709,6 @@ func (e *e2) describeState(s prodState) string {
 }
 
 var _ = token.ADD
-
 
 // symStruct builds an abstract struct value of type t whose fields are symbolic except the given ones.
 func symStruct(t types.Type, known map[string]*absVal) *absVal {
